@@ -93,7 +93,9 @@ func (r *registry) handleBlobGet(ctx context.Context, resp http.ResponseWriter, 
 		if rng.end == -1 || rng.end > desc.Size {
 			rng.end = desc.Size
 		}
-		if rng.start > desc.Size {
+		if rng.start >= desc.Size {
+			// Note: a range that starts exactly at the end of the blob isn't
+			// satisfiable either: there's no valid Content-Range for it.
 			return withHTTPCode(http.StatusRequestedRangeNotSatisfiable, fmt.Errorf("range starts after end of blob"))
 		}
 		if rng.end < rng.start {
